@@ -33,10 +33,10 @@ func lcp(a, b []sym) int {
 // genUnits lists the work units: all enabled prefixes of length unitLen in
 // lexicographic order, each with the length of the prefix it shares with its
 // predecessor (those steps were observed by the predecessor's executions).
-func genUnits(unitLen int) []unit {
+func genUnits(unitLen int, mask uint32) []unit {
 	var us []unit
 	var prev []sym
-	enumerate(newModel(), nil, unitLen, func(h []sym) {
+	enumerate(newModel(), nil, unitLen, mask, func(h []sym) {
 		u := unit{prefix: append([]sym(nil), h...)}
 		if prev != nil {
 			u.lcpPrev = lcp(prev, h)
@@ -72,6 +72,7 @@ func better(f, old *found) bool {
 // childResult is what one worker process reports to the coordinator.
 type childResult struct {
 	Leaves, Nodes, ViolHist int64
+	ExtLeaves               int64 // maximal histories of the extended pass
 	St                      *stats
 	TimedOut                bool
 	Infra                   string
@@ -86,13 +87,42 @@ func envInt(k string, def int) int {
 	return def
 }
 
-// depth is the history length bound of the tier (C05_DEPTH: development override).
-func depth() int {
-	d := 6
+// depths returns the history length bounds of the tier: base is the pass over
+// the base alphabet, ext the pass over the extended alphabet (histories with
+// at least one of Ar/Br/Az; the others belong to the base pass, so ext <=
+// base). C05_DEPTH / C05_DEPTH_EXT: development overrides.
+func depths() (base, ext int) {
+	base, ext = 6, 6
 	if ev.Thorough() {
-		d = 8
+		base, ext = 8, 7
 	}
-	return envInt("C05_DEPTH", d)
+	base = envInt("C05_DEPTH", base)
+	ext = min(envInt("C05_DEPTH_EXT", min(ext, base)), base)
+	return
+}
+
+type job struct {
+	mask  uint32
+	need  uint32 // only histories containing one of these symbols (the others belong to another pass)
+	depth int
+	u     unit
+}
+
+func allJobs() []job {
+	base, ext := depths()
+	var jobs []job
+	for _, ps := range []struct {
+		mask, need uint32
+		d          int
+	}{{baseMask, 0, base}, {fullMask, extSyms, ext}} {
+		if ps.d <= 0 {
+			continue
+		}
+		for _, u := range genUnits(unitLen(ps.d), ps.mask) {
+			jobs = append(jobs, job{ps.mask, ps.need, ps.d, u})
+		}
+	}
+	return jobs
 }
 
 func unitLen(d int) int {
@@ -121,18 +151,19 @@ func activeVariants() []variant {
 }
 
 // runUnits executes units idx, idx+stride, ... sequentially (one bubble at a time).
-func runUnits(t *testing.T, d int, units []unit, idx, stride int, deadline time.Time, states map[uint64]struct{}) *childResult {
+func runUnits(t *testing.T, jobs []job, idx, stride int, deadline time.Time, states map[uint64]struct{}) *childResult {
 	res := &childResult{ByKey: map[string]*found{}, CountKey: map[string]int64{}, St: newStats()}
 	vars := activeVariants()
-	for i := idx; i < len(units) && !res.TimedOut && res.Infra == ""; i += stride {
-		u := units[i]
+	for i := idx; i < len(jobs) && !res.TimedOut && res.Infra == ""; i += stride {
+		j := jobs[i]
+		u := j.u
 		var prev []sym
 		first := true
 		m := newModel()
 		for _, s := range u.prefix {
 			m.apply(s)
 		}
-		enumerate(m, append([]sym(nil), u.prefix...), d, func(h []sym) {
+		enumerate(m, append([]sym(nil), u.prefix...), j.depth, j.mask, func(h []sym) {
 			if res.TimedOut || res.Infra != "" {
 				return
 			}
@@ -143,6 +174,14 @@ func runUnits(t *testing.T, d int, units []unit, idx, stride int, deadline time.
 			checkFrom := lcp(prev, h)
 			if first {
 				checkFrom = u.lcpPrev
+			}
+			if j.need != 0 {
+				ft := firstOf(h, j.need)
+				if ft < 0 {
+					return // covered by the base pass
+				}
+				checkFrom = max(checkFrom, ft) // shorter prefixes are base histories
+				res.ExtLeaves++
 			}
 			first = false
 			prev = append(prev[:0], h...)
@@ -185,8 +224,7 @@ func childMain(t *testing.T, spec string) int {
 	out := os.Getenv("C05_OUT")
 	dl, _ := strconv.ParseInt(os.Getenv("C05_DEADLINE"), 10, 64)
 	states := map[uint64]struct{}{}
-	d := depth()
-	res := runUnits(t, d, genUnits(unitLen(d)), idx, n, time.Unix(dl, 0), states)
+	res := runUnits(t, allJobs(), idx, n, time.Unix(dl, 0), states)
 	b, _ := json.Marshal(res)
 	if err := os.WriteFile(out+".json", b, 0o644); err != nil {
 		fmt.Fprintln(os.Stderr, err)
@@ -214,18 +252,22 @@ func TestVerifC05(t *testing.T) {
 		os.Exit(childMain(t, spec))
 	}
 	r := ev.New("C05", "model_checking")
-	d := depth()
-	deadline := ev.Deadline(6*time.Minute, 45*time.Minute)
+	d, dExt := depths()
+	deadline := ev.Deadline(8*time.Minute, 45*time.Minute)
 	vars := activeVariants()
 
-	r.Rule(fmt.Sprintf("every history of exactly d=%d steps (all shorter histories are its prefixes; each distinct prefix is observed once) over the alphabet "+
-		"{A+ A.append, Ac A.commit, Ax A.abort, At A.timeout (virtual clock past A's 5 min transaction timeout: the broker aborts), B+ B.append, Bc B.commit, Bx B.abort, N+ non-transactional append} "+
+	r.Rule(fmt.Sprintf("every history of exactly d=%d steps (all shorter histories are its prefixes; each distinct prefix is observed once) over the base alphabet "+
+		"{A+ A.append, Ac A.commit, Ax A.abort, At A.timeout (virtual clock past A's 5 min transaction timeout: the broker aborts), B+ B.append, Bc B.commit, Bx B.abort, N+ non-transactional append}, "+
+		"plus every history of exactly %d steps over the extended alphabet that contains at least one of {Ar/Br register-only: a hand-framed AddPartitionsToTxn v3 with the producer's real current id/epoch puts the partition into a transaction "+
+		"that appends nothing (its Ac/Ax/Bc/Bx are hand-framed EndTxn v4, At lets it time out; no P+ while it is open), Az zombie produce: right after At, A's client, unaware of the broker-side abort, produces with its fenced epoch - "+
+		"the batch is rejected but Produce v12 has implicitly opened a transaction with the partition registered and no data, which only At ends}, "+
 		"on one partition of a fresh 1-broker kfake cluster in its own synctest bubble; commit/abort/timeout are enabled only with an open transaction, an append opens one if none; "+
 		"A and B are kgo transactional clients (BeginTransaction/ProduceSync/EndTransaction), N a plain idempotent kgo client, driven sequentially; appends alternate between batches of one and two records. "+
 		"After every step one fresh ReadCommitted kgo consumer per variant ({large: FetchMaxBytes=FetchMaxPartitionBytes=1 MiB; part1: FetchMaxPartitionBytes=1 = one batch per response; part170: FetchMaxPartitionBytes=170 = two batches per response; "+
 		"req1: FetchMaxBytes=1 = one batch per response cut by the request-level limit} x {default, KeepControlRecords}) "+
 		"reads from offset 0 until a poll stays empty for 1s of virtual time, and its output is compared with the reference visibility model. "+
-		"distinct_nontrivial = distinct reference-model states observed", d))
+		"In the model a registered-but-empty transaction contributes no data, no aborted range and does not hold back the last stable offset; its end writes a marker. "+
+		"distinct_nontrivial = distinct reference-model states observed", d, dExt))
 	r.Assume("executions are deterministic for a given history (each history prefix is observed in one execution only)",
 		"the reference model (list of appends tagged with producer, transaction number and outcome, plus markers; LSO = first offset of the earliest open transaction) is the specification; after every step it is compared with the broker's log read through a hand-framed read_uncommitted fetch, and consumers are judged only when both agree",
 		"a consumer that stayed idle for 1s of virtual time (ten empty 100ms long polls) has read everything the broker will give it; a missing record is only reported after 5 more idle seconds",
@@ -233,9 +275,12 @@ func TestVerifC05(t *testing.T) {
 		"after a broker-side timeout the application aborts on the old client and, if it does not recover, restarts the client under the same transactional id (only visibility is judged, not the producer's recovery)")
 
 	workers := ev.Workers()
-	dir := os.Getenv("BUILD")
-	if dir == "" {
-		dir = ev.Root() + "/build"
+	// Worker results go to a directory of this run (not $BUILD: the alt-*
+	// build directories of scratch-copy runs are removed by whoever cleans
+	// up, possibly while another run is still going).
+	dir := fmt.Sprintf("%s/build/c05-run-%d", ev.Root(), os.Getpid())
+	if err := os.MkdirAll(dir, 0o755); err != nil {
+		ev.InfraError("%v", err)
 	}
 	type child struct {
 		cmd    *exec.Cmd
@@ -281,6 +326,7 @@ func TestVerifC05(t *testing.T) {
 		total.Leaves += res.Leaves
 		total.Nodes += res.Nodes
 		total.ViolHist += res.ViolHist
+		total.ExtLeaves += res.ExtLeaves
 		total.St.add(res.St)
 		total.TimedOut = total.TimedOut || res.TimedOut
 		if res.Infra != "" && infra == "" {
@@ -298,6 +344,7 @@ func TestVerifC05(t *testing.T) {
 			r.DistinctHash(binary.LittleEndian.Uint64(sb))
 		}
 	}
+	os.RemoveAll(dir)
 	if infra != "" {
 		ev.InfraError("%s", infra)
 	}
@@ -308,7 +355,13 @@ func TestVerifC05(t *testing.T) {
 	r.Transitions(st.Steps)
 	r.Traces(total.Leaves)
 	r.Set("depth_"+ev.Tier(), d)
-	r.Set("bound_completed", fmt.Sprintf("all histories of length <= %d over the 8-symbol alphabet", d))
+	r.Set("depth_extended_alphabet_"+ev.Tier(), dExt)
+	r.Set("bound_completed", fmt.Sprintf("all histories of length <= %d over the 8-symbol base alphabet %v; all histories of length <= %d over the extended alphabet (+ %v)", d, maskNames(baseMask), dExt, maskNames(extSyms)))
+	r.Set("histories_executed_maximal_base_pass", total.Leaves-total.ExtLeaves)
+	r.Set("histories_executed_maximal_extended_pass", total.ExtLeaves)
+	r.Set("register_only_steps", st.Registered)
+	r.Set("zombie_produce_steps", st.Zombie)
+	r.Set("aborts_of_registered_but_empty_transactions", st.EmptyAborts)
 	r.Set("histories_distinct", total.Nodes)
 	r.Set("histories_executed_maximal", total.Leaves)
 	r.Set("distinct_model_states", r.NumDistinct())
@@ -335,7 +388,7 @@ func TestVerifC05(t *testing.T) {
 	if total.TimedOut {
 		r.NotExhaustive("soft deadline reached before all histories were executed")
 	}
-	for _, h := range []string{"A+ B+ Ax Bc N+", "A+ At A+ Ac B+", "B+ A+ A+ Bx Ac", "A+ Ax A+ Ac N+"} {
+	for _, h := range []string{"A+ B+ Ax Bc N+", "A+ At A+ Ac B+", "B+ A+ A+ Bx Ac", "A+ Ax A+ Ac N+", "A+ Ac Ar Ax N+", "A+ Ac A+ At Az At"} {
 		r.Sample(map[string]any{"history": h, "note": "one of the enumerated histories (symbols as in rule); observed after every step by every consumer variant"})
 	}
 
